@@ -162,15 +162,23 @@ class Args:
             return ('builtin', p(['len', 'str', 'dict', 'keys', 'map', 'list', 'int', 'sorted', 'get', 'push']))
         raise ValueError(spec)
 
-    def call(self, name, typed_ratio=4, overflow=0):
+    def call(self, name, typed_ratio=4, overflow=0, perturb=0):
         """-> list of argument values for builtin `name`; overflow: 1 call in `overflow` gets 1-2 extra trailing arguments"""
         shapes = SHAPES.get(name)
+        if shapes and perturb and self.n(perturb) == 0:
+            # a well-formed call with one argument swapped for a callable (or any value) and up to two extra arguments
+            shape = max(shapes, key=len) if self.n(2) else self.pick(shapes)
+            args = [self.value(s) for s in shape]
+            if args:
+                args[self.n(len(args))] = self.value(self.pick(['fn1', 'fn1', 'fn1', 'fn2', 'builtin', 'any']))
+            args += [self.value(self.pick(['str', 'flags', 'int', 'any', 'str', 'fn1'])) for _ in range([0, 1, 1, 2][self.n(4)])]
+            return args
         if shapes and self.n(typed_ratio + 1) != 0:
             args = [self.value(s) for s in self.pick(shapes)]
             if overflow and self.n(overflow) == 0:
                 args += [self.value(self.pick(['dict', 'list', 'pairs', 'any', 'nested'])) for _ in range(1 + self.n(2))]
             return args
-        return [self.value(self.pick(ANY_SPECS)) for _ in range(self.n(5))]
+        return [self.value(self.pick(ANY_SPECS)) for _ in range(self.n(7))]
 
 
 def is_marker(v):
